@@ -92,6 +92,9 @@ fn rules() -> Vec<Rule> {
         rule!("context.return-in-loop", "jasi (false) start\nreturn 1\nend", unreachable_code, OutsideFunction),
         rule!("duplicate.function", "do zz_d() start\nend\ndo zz_d() start\nend", duplicate, Always),
         rule!("duplicate.function-different-arity", "do zz_e() start\nend\ndo zz_e(p) start\nend", duplicate, Always),
+        rule!("duplicate.function-with-bodies", "do zz_db(a) start\nmake zz_x get a\nshout(zz_x)\nreturn zz_x\nend\ndo zz_db(b) start\nmake zz_y get 2\nif to say (true) start\nshout(zz_y)\nend\nreturn zz_y add b\nend", duplicate, Always),
+        rule!("duplicate.function-with-nested-function", "do zz_dn() start\ndo zz_in() start\nreturn 1\nend\nreturn zz_in()\nend\ndo zz_dn() start\ndo zz_in2() start\nreturn 2\nend\nreturn zz_in2()\nend", duplicate, Always),
+        rule!("duplicate.function-called-between", "do zz_dc() start\nreturn 1\nend\nshout(zz_dc())\ndo zz_dc() start\njasi (false) start\ncomot\nend\nreturn 2\nend", duplicate, Always),
         rule!("duplicate.parameter", "do zz_p(q, q) start\nend", duplicate, Always),
         rule!("duplicate.parameter-apart", "do zz_p2(q, r, q) start\nend", duplicate, Always),
         rule!("reserved.builtin-as-variable", "make shout get 1", reserved, Always),
@@ -132,6 +135,11 @@ fn rules() -> Vec<Rule> {
         rule!("type.condition-named-like-a-parameter", "make zz_c get 5\ndo zz_fc(zz_c) start\nend\nif to say (zz_c) start\nend", mismatch, Always),
         rule!("type.index-named-like-a-parameter", "make zz_i get \"k\"\ndo zz_fi(zz_i) start\nend\nshout([1][zz_i])", mismatch, Always),
         rule!("method.unknown-named-like-a-parameter", "make zz_m get \"s\"\ndo zz_fm(zz_m) start\nend\nshout(zz_m.abs())", undeclared, Always),
+        rule!("type.dynamic-plus-string-is-a-string", "do zz_ds(p) start\nreturn (p add \"!\") minus 1\nend", mismatch, Always),
+        rule!("type.string-plus-dynamic-is-a-string", "do zz_sd(p) start\nreturn not (\"n=\" add p)\nend", mismatch, Always),
+        rule!("type.string-plus-element-as-condition", "make zz_xs get [1]\njasi (\"n=\" add zz_xs[0]) start\ncomot\nend", mismatch, Always),
+        rule!("type.variable-from-dynamic-plus-string", "do zz_dv(p) start\nmake zz_s get p add \"cm\"\nreturn zz_s times 2\nend", mismatch, Always),
+        rule!("control.dynamic-plus-number-stays-dynamic", "do zz_dn(p) start\nreturn (p add 1) minus 1\nend\nshout(zz_dn(2))", none, Never),
         rule!("type.in-argument", "shout(to_string(1 minus \"s\"))", mismatch, Always),
         rule!("type.in-array", "shout([1, true minus 1])", mismatch, Always),
         rule!("method.unknown-on-string", "shout(\"s\".nosuch())", undeclared, Always),
@@ -429,6 +437,23 @@ fn family_cases(n: usize) -> Vec<FamCase> {
         }
     }
     v
+}
+
+/// Every text of the matrix and family stages (C07 runs them through its own oracle too: the
+/// ill-formed programs are the ones that reach the checker's error paths).
+pub fn all_sources() -> Vec<String> {
+    let mut out = Vec::new();
+    for rule in rules() {
+        for (_, _, _, template) in CONTEXTS {
+            out.push(template.replace('@', rule.text));
+        }
+    }
+    for n in 1..=FAMILY_MAX_N {
+        for c in family_cases(n) {
+            out.push(c.src);
+        }
+    }
+    out
 }
 
 fn run_families(ctx: &mut Ctx) {
